@@ -326,6 +326,18 @@ def eig(A):
     if _diag_like(a):
         d = np.array([C(a[i, i]) for i in range(n)], dtype=object)
         return W(d, cld), W(_obj(np.eye(n)), cld)
+    # zero padding: [[B, 0], [0, 0]] with B known  ->  eigenvalues of B and zeros, eigenvectors blockdiag(P, I)
+    for k in range(n - 1, 0, -1):
+        if all(C(a[i, j]).is_zero() for i in range(n) for j in range(n) if i >= k or j >= k):
+            sub = _lookup("eig", a[:k, :k])
+            if sub is None and _diag_like(a[:k, :k]):
+                sub = (np.array([C(a[i, i]) for i in range(k)], dtype=object), _obj(np.eye(k)))
+            if sub is not None:
+                w, V = sub
+                wz = np.array(list(_obj(w)) + [C(0)] * (n - k), dtype=object)
+                Vz = _obj(np.eye(n)).copy()
+                Vz[:k, :k] = _obj(V)
+                return W(wz, cld), W(Vz, cld)
     raise Inconclusive("eig of a symbolic matrix that is not in the harness' parametrised form")
 
 
